@@ -73,18 +73,25 @@ pub fn reg_address(id: u64) -> RegisterAddress {
     RegisterAddress::new(reg_meta(id), bls_sk(id).public_key())
 }
 
-/// key number -> (space, id): 0 chunk, 1 owner (scratchpad / transaction), 2 register
-pub fn key_xorname(key: u64) -> [u8; 32] {
+/// The bytes whose SHA3-256 is the name behind key number `key` (key number = number of this preimage):
+/// `3*i` plain data `i`, `3*o+1` the 48 public-key bytes of owner `o` (scratchpad AND transaction address),
+/// `3*r+2` meta ‖ public key of register `r`.  There is no kind tag in an address: a CHUNK whose value is one of
+/// the last two byte strings has the very record key of that owner's scratchpad / transactions / register.
+pub fn preimage(key: u64) -> Vec<u8> {
     let id = key / 3;
     match key % 3 {
-        0 => sha3(&chunk_bytes(id)),
-        1 => sha3(&bls_sk(id).public_key().to_bytes()),
+        0 => chunk_bytes(id),
+        1 => bls_sk(id).public_key().to_bytes().to_vec(),
         _ => {
             let mut b = reg_meta(id).0.to_vec();
             b.extend_from_slice(&bls_sk(id).public_key().to_bytes());
-            sha3(&b)
+            b
         }
     }
+}
+/// key number -> name: sha3 of the preimage with that number
+pub fn key_xorname(key: u64) -> [u8; 32] {
+    sha3(&preimage(key))
 }
 pub fn record_key(key: u64) -> RecordKey {
     RecordKey::new(&key_xorname(key))
@@ -133,6 +140,9 @@ pub struct OpD {
 pub enum DContent {
     Bad,
     Chunk(u64),
+    /// `Ck<key>`: a chunk whose bytes are exactly the address preimage number `key` (`Ck1` = the 48 public-key
+    /// bytes of owner 0, `Ck2` = meta ‖ pk of register 0, `Ck3` = plain data 1 = `C1`)
+    ChunkPre(u64),
     Pad { owner: u64, n: u64, sig: PadSig },
     Txs(Vec<TxD>),
     Reg { id: u64, base: RegBase, ops: Vec<OpD> },
@@ -160,7 +170,10 @@ pub fn parse_content(s: &str) -> Option<DContent> {
     }
     let (tag, rest) = s.split_at(1);
     match tag {
-        "C" => Some(DContent::Chunk(rest.parse().ok()?)),
+        "C" => match rest.strip_prefix('k') {
+            Some(k) => Some(DContent::ChunkPre(k.parse().ok()?)),
+            None => Some(DContent::Chunk(rest.parse().ok()?)),
+        },
         "S" => {
             let p: Vec<&str> = rest.split('.').collect();
             if p.len() != 3 {
@@ -247,6 +260,10 @@ pub fn parse_pay(s: &str) -> Option<Option<PayD>> {
 
 pub fn build_chunk(id: u64) -> Chunk {
     Chunk::new(Bytes::from(chunk_bytes(id)))
+}
+/// the chunk whose bytes are address preimage number `key`
+pub fn build_chunk_pre(key: u64) -> Chunk {
+    Chunk::new(Bytes::from(preimage(key)))
 }
 
 #[derive(serde::Serialize)]
@@ -420,6 +437,7 @@ pub fn derived_key(c: &DContent) -> Option<u64> {
     match c {
         DContent::Bad => None,
         DContent::Chunk(id) => Some(3 * id),
+        DContent::ChunkPre(key) => Some(*key),
         DContent::Pad { owner, .. } => Some(3 * owner + 1),
         DContent::Txs(v) => v.first().map(|t| 3 * t.owner + 1),
         DContent::Reg { id, .. } => Some(3 * id + 2),
@@ -443,6 +461,10 @@ pub fn build_record(kind: &str, rk: u64, content: &DContent, pay: Option<&BuiltP
         DContent::Chunk(id) => match pay {
             Some(p) => ser(&(p.proof.clone(), build_chunk(*id)), k),
             None => ser(&build_chunk(*id), k),
+        },
+        DContent::ChunkPre(key) => match pay {
+            Some(p) => ser(&(p.proof.clone(), build_chunk_pre(*key)), k),
+            None => ser(&build_chunk_pre(*key), k),
         },
         DContent::Pad { owner, n, sig } => match pay {
             Some(p) => ser(&(p.proof.clone(), build_pad(*owner, *n, sig)), k),
@@ -471,7 +493,8 @@ pub fn build_stored(key: u64, desc: &str) -> Option<Record> {
     let id = key / 3;
     let (tag, rest) = desc.split_at(1);
     let value = match tag {
-        "C" => ser(&build_chunk(id), RecordKind::Chunk),
+        // the chunk whose own address is this key (whatever else derives the same key)
+        "C" => ser(&build_chunk_pre(key), RecordKind::Chunk),
         "S" => {
             let (n, sig) = match rest.strip_suffix('i') {
                 Some(n) => (n, PadSig::Wrong),
@@ -509,7 +532,7 @@ pub fn describe(key: &RecordKey, rec: &Record) -> String {
     match h.kind {
         RecordKind::Chunk => match try_deserialize_record::<Chunk>(rec) {
             Ok(c) => {
-                if kn.map(|k| k % 3 == 0 && c.value().as_ref() == chunk_bytes(k / 3).as_slice()).unwrap_or(false) {
+                if kn.map(|k| c.value().as_ref() == preimage(k).as_slice()).unwrap_or(false) {
                     "C".into()
                 } else {
                     "C?".into()
